@@ -90,7 +90,10 @@ def oracle(ctx, lines, out):
     for i, (sym, ver, level, mask, segs, label) in enumerate(meta):
         o = out[i]
         key = None
-        if not o.startswith('ok '):
+        if o.startswith('aliased'):
+            key = '%s:emitted-bitmap-changed-later' % sym
+            detail = '%s: %s (line %d: %s)' % (sym, o[8:], i, lines[i][:100])
+        elif not o.startswith('ok '):
             key = '%s:encode-refused' % sym
             detail = '%s v%d l%d mask %d [%s]: valid description refused (%s)' % (sym, ver, level, mask, symgen.show_segs(segs), o[:60])
         else:
